@@ -244,20 +244,27 @@ func containerBody(kinds []int, withCtxCancel, allowThird bool) func() {
 				}
 			})
 		}
+		// (each promise gets exactly one SetResult call, from its owner: it is the first, so it returns true -
+		// the container never consumes the one-shot result of a promise handed to it)
+		own := func(p *promise.Promise[int], v int, err error) {
+			if !p.SetResult(v, err) {
+				fail("C11.winner-count", "the only SetResult call on promise %d returned false", v/10)
+			}
+		}
 		T("P1", func() {
 			if resolveFirst {
-				p1.SetResult(10+code1, resErrs[code1])
+				own(p1, 10+code1, resErrs[code1])
 			}
 			vsched.CtrSet(c11Set0+1, 1)
 			c.SetPromise(p1)
 			if !resolveFirst {
-				p1.SetResult(10+code1, resErrs[code1])
+				own(p1, 10+code1, resErrs[code1])
 			}
 		})
 		T("P2", func() {
 			vsched.CtrSet(c11Set0+2, 1)
 			c.SetPromise(p2)
-			p2.SetResult(20+code2, resErrs[code2])
+			own(p2, 20+code2, resErrs[code2])
 		})
 		if third != 0 {
 			T("P3", func() {
